@@ -47,8 +47,8 @@ def base_variants(rng, ast, per_node_annot=2):
     flat = G._flat(ast)
     n = len(flat)
     used = {m for e, _, _, _ in flat for (_, m, _) in e['rings']}
-    free_digit = [m for m in range(1, 10) if m not in used]
-    free_pct = [m for m in range(10, 100) if m not in used]
+    free_digit = [m for m in range(0, 10) if m not in used]
+    free_pct = [m for m in range(0, 100) if m not in used]
 
     def variant(mutate):
         a = copy.deepcopy(ast)
